@@ -177,3 +177,14 @@ def run(facts, rep, ctx):
     from . import round2
     round2.sb11(facts, rep)
 
+
+_run_before_round4 = run
+
+
+def run(facts, rep, ctx):
+    """rules added after the third seeding round (rules/round4.py)"""
+    _run_before_round4(facts, rep, ctx)
+    from . import round4
+    round4.cf1(facts, rep)
+    round4.tb12(facts, rep)
+
